@@ -109,6 +109,13 @@ class SciPySampler(Sampler):
 
         sample_dim = variable_count if self._mask is None else self._mask.sum()
 
+        if sample_dim == 0:
+            # All variables handled by this sampler are fixed, nothing to sample:
+            return np.zeros(
+                (realization_count, perturbation_count, variable_count),
+                dtype=np.float64,
+            )
+
         if self._method in _STATS_SAMPLERS:
             samples = self._generate_stats_samples(
                 1 if self._sampler_config.shared else realization_count,
